@@ -4,7 +4,7 @@
                        fuel is shown sufficient by the closure check); |R| stated
    close_no_deadlock   no reachable non-final state lacks a successor
    nd_paths_bounded    after Close, every path that never declines an enabled closeCh
-                       alternative has length <= 28 (ranking certificate, checked)
+                       alternative has length <= 30 (ranking certificate, checked)
    close_terminates    every run that declines only finitely often reaches
                        "all three loops done, Close returned"
    partner_answers     whenever a goroutine waits on sm.notifyCh the introducer is inside
@@ -64,7 +64,7 @@ Proof.
   intros s Hr. rewrite states_eq. apply memb_In. apply H. exact Hr.
 Qed.
 
-Lemma states_size : N.of_nat (List.length states) = 9475%N.
+Lemma states_size : N.of_nat (List.length states) = 10341%N.
 Proof. vm_compute. reflexivity. Qed.
 
 (* lifting a boolean check over the computed set to all reachable states *)
@@ -95,7 +95,7 @@ Lemma rank_check :
   forallb (fun s => negb (closed s) || forallb (fun s' => (rk s' <? rk s)%nat) (nd_succs s)) states = true.
 Proof. vm_compute. reflexivity. Qed.
 
-Lemma rank_bound_check : forallb (fun s => (rk s <=? 28)%nat) states = true.
+Lemma rank_bound_check : forallb (fun s => (rk s <=? 30)%nat) states = true.
 Proof. vm_compute. reflexivity. Qed.
 
 Lemma closed_stable_check :
@@ -136,7 +136,7 @@ Fixpoint is_nd_path (s : state) (l : list state) : Prop :=
   | s' :: t => In s' (nd_succs s) /\ is_nd_path s' t
   end.
 
-Theorem nd_paths_bounded_all : forall l s, reach s -> closed s = true -> is_nd_path s l -> (List.length l <= 28)%nat.
+Theorem nd_paths_bounded_all : forall l s, reach s -> closed s = true -> is_nd_path s l -> (List.length l <= 30)%nat.
 Proof.
   assert (H : forall l s, reach s -> closed s = true -> is_nd_path s l -> (List.length l <= rk s)%nat).
   { induction l as [|s' t IH]; intros s Hr Hc Hp; simpl; [lia|].
@@ -197,8 +197,8 @@ Proof.
   set (n0 := Nat.max i0 N).
   assert (Hc : forall j, (n0 <= j)%nat -> closed (run j) = true).
   { intros j Hj. apply (run_closed_mono run Hrun i0 Hc0). unfold n0 in Hj. lia. }
-  (* either some state within the next 29 steps has no successor at all, or we would get a
-     non-declining path of length 29 *)
+  (* either some state within the next 31 steps has no successor at all, or we would get a
+     non-declining path of length 31 *)
   assert (Hstep : forall k, (exists j, (n0 <= j)%nat /\ (j < n0 + k)%nat /\ succs (run j) = []) \/
                             (exists l, List.length l = k /\ is_nd_path (run n0) l /\ last l (run n0) = run (n0 + k)%nat)).
   { induction k as [|k IH].
@@ -213,7 +213,7 @@ Proof.
                 rewrite <- Hlast. symmetry. apply last_cons_default.
           -- rewrite last_last. f_equal. lia.
         * left. exists (n0 + k). repeat split; try lia. exact He. }
-  destruct (Hstep 29) as [[j [Hj1 [Hj2 Hj3]]] | [l [Hl [Hp _]]]].
+  destruct (Hstep 31) as [[j [Hj1 [Hj2 Hj3]]] | [l [Hl [Hp _]]]].
   - exists j. pose proof (run_reach run Hrun j) as Hr.
     destruct (final (run j)) eqn:F; [reflexivity|].
     destruct (close_no_deadlock_all _ Hr F) as [tr Hin]. rewrite Hj3 in Hin. destruct Hin.
